@@ -34,7 +34,7 @@ func init() {
 	register(&Rule{Name: "FIND.STEP", Props: []string{"C17"}, Floor: 1,
 		Doc: "every path through the per-step loop of Find moves the cursor, returns, or is the identity step",
 		Run: ruleFindStep})
-	register(&Rule{Name: "FIND.ROOT", Props: []string{"C17"}, Floor: 1,
+	register(&Rule{Name: "FIND.ROOT", Props: []string{"C17", "C07", "C08"}, Floor: 1,
 		Doc: "absolute paths resolve the first prefix from the starting node, captured before climbing to the root",
 		Run: ruleFindRoot})
 	register(&Rule{Name: "RO.ORDER", Props: []string{"C12"}, Floor: 2,
@@ -1242,10 +1242,83 @@ func ruleFindRoot(c *Ctx) []Obligation {
 	}
 	ctx := calls[0].Common().Args[0]
 	_, f, base := loadedField(ctx)
+	var obs []Obligation
 	if f == m.fNode && isParamN(find, base, 0) {
-		return []Obligation{ok(R, con, c.InstrPos(calls[0]), "contextNode := e.Node taken from the receiver, not from the climbed root")}
+		obs = append(obs, ok(R, con, c.InstrPos(calls[0]), "contextNode := e.Node taken from the receiver, not from the climbed root"))
+	} else {
+		obs = append(obs, bad(R, con, c.InstrPos(calls[0]), "the prefix is resolved from the root entry's node: prefixes that only the starting node's module imports would not resolve"))
 	}
-	return []Obligation{bad(R, con, c.InstrPos(calls[0]), "the prefix is resolved from the root entry's node: prefixes that only the starting node's module imports would not resolve")}
+	// the switch to the tree of the module that owns what the prefix denotes
+	con = "an absolute path continues in the tree of the module that owns what the first prefix denotes, unless the current root already is that module"
+	toEntry := c.MustFn("yang.ToEntry")
+	var sw ssa.CallInstruction
+	var owner ssa.Value
+	for _, ci := range c.callsTo(find, toEntry) {
+		arg := ci.Common().Args[0]
+		if mi, isMI := arg.(*ssa.MakeInterface); isMI {
+			arg = mi.X
+		}
+		if call, isC := arg.(*ssa.Call); isC && calleeName(call) == "module" {
+			sw, owner = ci, arg
+		}
+	}
+	if sw == nil {
+		obs = append(obs, bad(R, con, c.Pos(find.Pos()), "Find no longer switches to ToEntry(module(<module of the prefix>)): a path whose first prefix denotes a submodule, or another module, is searched in the wrong tree"))
+		return obs
+	}
+	extra := ""
+	for _, g := range guardsAt(sw.Block()) {
+		if isLoopHeader(g.If.Block()) {
+			continue
+		}
+		for _, gg := range expandGuard(g) {
+			cond, _ := stripNot(gg.Cond, gg.Branch)
+			switch x := cond.(type) {
+			case *ssa.BinOp:
+				if _, _, isNil := nilTest(x); isNil {
+					continue
+				}
+				if _, isK := x.X.(*ssa.Const); isK {
+					continue
+				}
+				if _, isK := x.Y.(*ssa.Const); isK {
+					continue
+				}
+				if x.X == owner || x.Y == owner {
+					continue // m != root
+				}
+				extra = c.InstrPos(gg.If)
+			case *ssa.Extract:
+				if _, isTA := x.Tuple.(*ssa.TypeAssert); isTA {
+					continue // the comma-ok of e.Node.(*Module)
+				}
+				extra = c.InstrPos(gg.If)
+			case *ssa.Call:
+				extra = c.InstrPos(gg.If)
+			default:
+				if _, isPhi := cond.(*ssa.Phi); isPhi {
+					continue // materialised && / ||: its operands were expanded above
+				}
+				extra = c.InstrPos(gg.If)
+			}
+		}
+	}
+	if extra == "" {
+		obs = append(obs, ok(R, con, c.InstrPos(sw), "e = ToEntry(module(mod)) guarded only by nil tests, the prefix test and the comparison of the owner with the current root"))
+	} else {
+		obs = append(obs, bad(R, con, c.InstrPos(sw), "the switch to the owning module's tree is skipped under a further condition ("+extra+") that does not compare the owner with the current root: a path written in a submodule with its belongs-to prefix stays in the submodule's private tree, so augments and deviations written there miss their targets"))
+	}
+	return obs
+}
+
+// expandGuard: a guard whose condition is a materialised && / || contributes the operands that must hold.
+func expandGuard(g Guard) []Guard {
+	if _, isPhi := g.Cond.(*ssa.Phi); isPhi {
+		if sub := expandPhiGuard(g.Cond, g.Branch, g.If, 0); len(sub) > 0 {
+			return sub
+		}
+	}
+	return []Guard{g}
 }
 
 func ruleRoOrder(c *Ctx) []Obligation {
